@@ -69,7 +69,7 @@ for prop in sorted(os.listdir(SRC)):
         meta = json.load(open(os.path.join(sd, "meta.json")))
         base = re.search(r"base (\w+)", txt)
         meta["breaks_property"] = prop
-        meta["round"] = 2 if PREFIX.startswith("r2") else (3 if PREFIX.startswith("r3") else 1)
+        meta["round"] = int(re.match(r"r(\d+)", PREFIX).group(1)) if re.match(r"r(\d+)", PREFIX) else 1
         if f"{prop}/{m}" in FROZEN:
             fz = FROZEN[f"{prop}/{m}"]
             meta["frozen_checks"] = {"verif_commit": fz.get("verif_commit"), "what": "the registered checks as committed before this round's changes were produced (blind evaluation)", "reported_by": fz.get("reported_by", {}), "analysis_error_in": sorted(fz.get("analysis_error_in", {}))}
